@@ -352,7 +352,10 @@ pub fn run_case_with(case: &Case, resizer: &mut Resizer, fill: u8) -> String {
     let sbytes = comps_to_bytes(kind, &case.sbuf);
     let mut dbytes = vec![fill; case.dlen() * case.pt.size()];
     crate::util::note_current(&line_prefix(case));
-    unsafe { resizer.set_cpu_extensions(case.ext) };
+    // only switch the back-end when it differs: a reused / cloned Resizer must keep the one it was given
+    if resizer.cpu_extensions() != case.ext {
+        unsafe { resizer.set_cpu_extensions(case.ext) };
+    }
     if let Some(c) = case.custom {
         c.install();
     }
